@@ -1890,10 +1890,13 @@ func (g *gen) exhaustive(depth int, crash bool) int {
 					continue
 				}
 				run(s2, -1)
-				// crash prefixes of the last op: for every sequence up to four ops; the fifth level of a
-				// thorough run (3125 sequences) is run without them to keep the tier under ~25 minutes
-				if crash && a != "S" && d <= 4 {
+				// crash prefixes of the last op: all four for every sequence up to four ops; on the fifth level
+				// of a thorough run (3125 sequences) only prefixes 1 and 2, to keep the tier under ~25 minutes
+				if crash && a != "S" {
 					for k := 0; k <= 3; k++ {
+						if d >= 5 && (k == 0 || k == 3) {
+							continue // fifth level of a thorough run: only the two middle prefixes
+						}
 						run(s2, k)
 					}
 				}
